@@ -76,7 +76,11 @@ class Session:
         return check_one(content, tag, info, pt, where)
 
 
-def via_files(d, kd, pt, route):
+# interpreter settings a build system may export for the tool's processes (optimised byte code strips assert statements)
+CLI_ENVS = [None, {"PYTHONOPTIMIZE": "1"}, None, {"PYTHONOPTIMIZE": "2"}, {"PYTHONHASHSEED": "0"}, {"PYTHONOPTIMIZE": "1"}, {"PYTHONHASHSEED": "0"}, {"PYTHONOPTIMIZE": "2"}]
+
+
+def via_files(d, kd, pt, route, env_extra=None):
     # the output directory is REUSED (a build directory is): the artifacts of the previous invocation are still there, and the
     # firmware file is only rewritten when its content changes (same file, same time stamp for a repeated encryption)
     out = os.path.join(d, "o")
@@ -88,7 +92,7 @@ def via_files(d, kd, pt, route):
         os.utime(fw, (1_600_000_000, 1_600_000_000))
     if route == "cli":
         ok, r = sut.cli_ok(["encrypt", "encrypt-and-generate", "--firmware", fw, "--key-name", "K", "--key-id", "7", "--context", kd, "--output-dir", out,
-                            "--kms-script", sut.KMS_SCRIPT(), "--encrypt-script", sut.ENCRYPT_SCRIPT()], d)
+                            "--kms-script", sut.KMS_SCRIPT(), "--encrypt-script", sut.ENCRYPT_SCRIPT()], d, env_extra=env_extra)
         if not ok:
             raise Violation(f"CLI encrypt failed: {r.stderr[-200:]}", "artifacts")
     else:
@@ -339,8 +343,9 @@ def run_shard(ctx, spec):
                 for i in range(spec["n"]):
                     if ctx.expired():
                         break
-                    iv = via_files(d, kd, b"identical firmware", "cli")
-                    acc.case(nt_key=("cli", i), classes=["cli-process"])
+                    envx = CLI_ENVS[i % len(CLI_ENVS)]
+                    iv = via_files(d, kd, b"identical firmware", "cli", env_extra=envx)
+                    acc.case(nt_key=("cli", i), classes=["cli-process", "cli-process:" + ("default" if not envx else ",".join(f"{k}={v}" for k, v in envx.items()))])
                     if iv in seen:
                         raise Violation(f"IV {iv.hex()} published by two CLI processes ({seen[iv]}, {i})", "pairwise distinct IVs", bucket="iv-repeat")
                     seen[iv] = i
@@ -389,7 +394,7 @@ def replay(ctx, check, case):
 
 def finalize(ctx, m, ev):
     c = m["counters"]
-    for need in ("storm:reused-object", "storm:fresh-object", "storm:reimport", "machine", "cli-process", "fork:inherited-object", "fork:reimport", "sizes", "size>=1MiB:True", "copied-keys-directory"):
+    for need in ("storm:reused-object", "storm:fresh-object", "storm:reimport", "machine", "cli-process", "fork:inherited-object", "fork:reimport", "sizes", "size>=1MiB:True", "copied-keys-directory", "cli-process:PYTHONOPTIMIZE=1", "cli-process:PYTHONOPTIMIZE=2"):
         if not c.get(need):
             raise boot.HarnessError(f"interesting class {need} is empty")
     if m["info"].get("ivs_compared_pairwise", 0) < 1000:
